@@ -435,6 +435,69 @@ func execC13(c C13Case) *Failure {
 			}
 		}
 	}
+	if c.Mode == ModeLegacy {
+		return c13Leaver(w)
+	}
+	return nil
+}
+
+// c13Leaver: on the legacy server requests run detached from their stream. A client leaves while its call is still in its
+// handler and other clients arrive: the session that handler sees stays the one of its own request until it returns.
+func c13Leaver(w *World) *Failure {
+	type seen struct{ entry, exit, data string }
+	res := make(chan seen, 4)
+	gate := make(chan struct{})
+	w.SSE.RegisterTool(mcp.NewTool("c13-slow"), func(ctx context.Context, req *mcp.CallToolRequest) (*mcp.CallToolResult, error) {
+		s := sessionOf(ctx)
+		if s == nil {
+			res <- seen{entry: "<none>"}
+			return mcp.NewTextResult("x"), nil
+		}
+		v := seen{entry: s.GetID()}
+		s.SetData("owner", v.entry)
+		select {
+		case <-gate:
+		case <-time.After(3 * time.Second):
+		}
+		v.exit = s.GetID()
+		if d, ok := s.GetData("owner"); ok {
+			v.data, _ = d.(string)
+		}
+		res <- v
+		return mcp.NewTextResult("x"), nil
+	})
+	a, err := w.Connect()
+	if err != nil {
+		return Failf("C13/connect", "%v", err)
+	}
+	aid := a.SessionID
+	a.Send([]byte(`{"jsonrpc":"2.0","id":"slow","method":"tools/call","params":{"name":"c13-slow","arguments":{}}}`), "", 0)
+	time.Sleep(2 * time.Millisecond)
+	a.Close() // the client leaves; its call is still in the handler
+	time.Sleep(5 * time.Millisecond)
+	var others []*Conn
+	for i := 0; i < 3; i++ {
+		if b, err := w.Connect(); err == nil {
+			others = append(others, b)
+			b.Send([]byte(`{"jsonrpc":"2.0","id":"q","method":"tools/list"}`), `"q"`, Bound())
+		}
+	}
+	close(gate)
+	var v seen
+	select {
+	case v = <-res:
+	case <-time.After(Patience()):
+		for _, b := range others {
+			b.Close()
+		}
+		return TimingFailf("C13/leaver", "the call of a client that left did not finish")
+	}
+	for _, b := range others {
+		b.Close()
+	}
+	if v.entry != aid || v.exit != v.entry || v.data != v.entry {
+		return Failf("C13/foreign-session", "legacy-sse: a client (session %q) left while its call was in the handler and three other clients connected: the handler saw session %q on entry, %q before it returned, and read back %q from the data it had stored in it", aid, v.entry, v.exit, v.data)
+	}
 	return nil
 }
 
